@@ -93,7 +93,7 @@ Inductive cstate :=
 | CWaitCnt (m : cmsg) (g : bool)            (* waiting for InFlightService(1) capacity *)
 | CProto (c : N) (m : cmsg) (g : bool).     (* awaiting protocol service invocation c *)
 
-Record call := mkCall { cid : N; cst : cstate; clim : bool; chost : task }.
+Record call := mkCall { cid : N; cst : cstate; clim : bool; chost : task; ckey : N }.
 
 Inductive owner := OBind | OCall (id : N).
 Inductive rd := RDfresh | RDwait (o : N) | RDdone.
@@ -112,7 +112,8 @@ Record pst := mkPst {               (* protocol state: dispatcher.rs Inner / Pub
 Record bst := mkBst {               (* BufferService + InFlightService(1) + limiter *)
   buf : list N; cnt : N; nextc : option N; bready : bool;
   w_cnt : option task; lim : N; w_lim : bool;
-  w_inp : option task;              (* waker stored in the WaitersRef of BufferService's inner pipeline *)
+  ip_cur : option owner;            (* WaitersRef of BufferService's inner pipeline: owner of the check *)
+  ip_wakers : list (N * task);      (*   ... wakers to notify, one slot per pipeline index (0 = binding, k = call k) *)
   nwak : list (N * task);           (* next_call receiver of call o: the task that polled it last *)
   w_ctl : option task }.            (* waker stored in the WaitersRef of the `inner.control` pipeline *)
 
@@ -123,7 +124,8 @@ Record ist := mkIst {               (* io *)
 Record sst := mkSst {               (* scheduler, dispatcher *)
   runq : list task; cur : option task; self_woken : bool;
   calls : list call; nreq : N; r1 : r1state; sp_cur : option owner; sp_wakers : list task;
-  dst : dstate; stopping : bool; lasterr : errk; qerrs : list errk }.
+  dst : dstate; stopping : bool; lasterr : errk; qerrs : list errk;
+  cfree : list N; cslen : N }.        (* slab of the `stopping` Condition: free list, number of slots *)
 
 Record lst := mkLst {               (* logs, gates *)
   hlog : list N; plog : list N; nh : N; np : N; stop1 : N; stops : N;
@@ -145,16 +147,17 @@ Definition p_aliases v (x : pst) := mkPst (inflight x) (publishes x) (pubrel x) 
 Definition p_dsent v (x : pst) := mkPst (inflight x) (publishes x) (pubrel x) (aliases x) v (drecv x).
 Definition p_drecv v (x : pst) := mkPst (inflight x) (publishes x) (pubrel x) (aliases x) (dsent x) v.
 
-Definition b_buf v (x : bst) := mkBst v (cnt x) (nextc x) (bready x) (w_cnt x) (lim x) (w_lim x) (w_inp x) (nwak x) (w_ctl x).
-Definition b_cnt v (x : bst) := mkBst (buf x) v (nextc x) (bready x) (w_cnt x) (lim x) (w_lim x) (w_inp x) (nwak x) (w_ctl x).
-Definition b_nextc v (x : bst) := mkBst (buf x) (cnt x) v (bready x) (w_cnt x) (lim x) (w_lim x) (w_inp x) (nwak x) (w_ctl x).
-Definition b_bready v (x : bst) := mkBst (buf x) (cnt x) (nextc x) v (w_cnt x) (lim x) (w_lim x) (w_inp x) (nwak x) (w_ctl x).
-Definition b_wcnt v (x : bst) := mkBst (buf x) (cnt x) (nextc x) (bready x) v (lim x) (w_lim x) (w_inp x) (nwak x) (w_ctl x).
-Definition b_lim v (x : bst) := mkBst (buf x) (cnt x) (nextc x) (bready x) (w_cnt x) v (w_lim x) (w_inp x) (nwak x) (w_ctl x).
-Definition b_wlim v (x : bst) := mkBst (buf x) (cnt x) (nextc x) (bready x) (w_cnt x) (lim x) v (w_inp x) (nwak x) (w_ctl x).
-Definition b_winp v (x : bst) := mkBst (buf x) (cnt x) (nextc x) (bready x) (w_cnt x) (lim x) (w_lim x) v (nwak x) (w_ctl x).
-Definition b_nwak v (x : bst) := mkBst (buf x) (cnt x) (nextc x) (bready x) (w_cnt x) (lim x) (w_lim x) (w_inp x) v (w_ctl x).
-Definition b_wctl v (x : bst) := mkBst (buf x) (cnt x) (nextc x) (bready x) (w_cnt x) (lim x) (w_lim x) (w_inp x) (nwak x) v.
+Definition b_buf v (x : bst) := mkBst v (cnt x) (nextc x) (bready x) (w_cnt x) (lim x) (w_lim x) (ip_cur x) (ip_wakers x) (nwak x) (w_ctl x).
+Definition b_cnt v (x : bst) := mkBst (buf x) v (nextc x) (bready x) (w_cnt x) (lim x) (w_lim x) (ip_cur x) (ip_wakers x) (nwak x) (w_ctl x).
+Definition b_nextc v (x : bst) := mkBst (buf x) (cnt x) v (bready x) (w_cnt x) (lim x) (w_lim x) (ip_cur x) (ip_wakers x) (nwak x) (w_ctl x).
+Definition b_bready v (x : bst) := mkBst (buf x) (cnt x) (nextc x) v (w_cnt x) (lim x) (w_lim x) (ip_cur x) (ip_wakers x) (nwak x) (w_ctl x).
+Definition b_wcnt v (x : bst) := mkBst (buf x) (cnt x) (nextc x) (bready x) v (lim x) (w_lim x) (ip_cur x) (ip_wakers x) (nwak x) (w_ctl x).
+Definition b_lim v (x : bst) := mkBst (buf x) (cnt x) (nextc x) (bready x) (w_cnt x) v (w_lim x) (ip_cur x) (ip_wakers x) (nwak x) (w_ctl x).
+Definition b_wlim v (x : bst) := mkBst (buf x) (cnt x) (nextc x) (bready x) (w_cnt x) (lim x) v (ip_cur x) (ip_wakers x) (nwak x) (w_ctl x).
+Definition b_ipcur v (x : bst) := mkBst (buf x) (cnt x) (nextc x) (bready x) (w_cnt x) (lim x) (w_lim x) v (ip_wakers x) (nwak x) (w_ctl x).
+Definition b_ipw v (x : bst) := mkBst (buf x) (cnt x) (nextc x) (bready x) (w_cnt x) (lim x) (w_lim x) (ip_cur x) v (nwak x) (w_ctl x).
+Definition b_nwak v (x : bst) := mkBst (buf x) (cnt x) (nextc x) (bready x) (w_cnt x) (lim x) (w_lim x) (ip_cur x) (ip_wakers x) v (w_ctl x).
+Definition b_wctl v (x : bst) := mkBst (buf x) (cnt x) (nextc x) (bready x) (w_cnt x) (lim x) (w_lim x) (ip_cur x) (ip_wakers x) (nwak x) v.
 
 Definition i_chan v (x : ist) := mkIst v (rbuf x) (rpaused x) (closing x) (stopped x) (disp_reg x) (wpaused x) (wsched x) (wire x).
 Definition i_rbuf v (x : ist) := mkIst (chan x) v (rpaused x) (closing x) (stopped x) (disp_reg x) (wpaused x) (wsched x) (wire x).
@@ -166,18 +169,20 @@ Definition i_wpaused v (x : ist) := mkIst (chan x) (rbuf x) (rpaused x) (closing
 Definition i_wsched v (x : ist) := mkIst (chan x) (rbuf x) (rpaused x) (closing x) (stopped x) (disp_reg x) (wpaused x) v (wire x).
 Definition i_wire v (x : ist) := mkIst (chan x) (rbuf x) (rpaused x) (closing x) (stopped x) (disp_reg x) (wpaused x) (wsched x) v.
 
-Definition s_runq v (x : sst) := mkSst v (cur x) (self_woken x) (calls x) (nreq x) (r1 x) (sp_cur x) (sp_wakers x) (dst x) (stopping x) (lasterr x) (qerrs x).
-Definition s_cur v (x : sst) := mkSst (runq x) v (self_woken x) (calls x) (nreq x) (r1 x) (sp_cur x) (sp_wakers x) (dst x) (stopping x) (lasterr x) (qerrs x).
-Definition s_selfw v (x : sst) := mkSst (runq x) (cur x) v (calls x) (nreq x) (r1 x) (sp_cur x) (sp_wakers x) (dst x) (stopping x) (lasterr x) (qerrs x).
-Definition s_calls v (x : sst) := mkSst (runq x) (cur x) (self_woken x) v (nreq x) (r1 x) (sp_cur x) (sp_wakers x) (dst x) (stopping x) (lasterr x) (qerrs x).
-Definition s_nreq v (x : sst) := mkSst (runq x) (cur x) (self_woken x) (calls x) v (r1 x) (sp_cur x) (sp_wakers x) (dst x) (stopping x) (lasterr x) (qerrs x).
-Definition s_r1 v (x : sst) := mkSst (runq x) (cur x) (self_woken x) (calls x) (nreq x) v (sp_cur x) (sp_wakers x) (dst x) (stopping x) (lasterr x) (qerrs x).
-Definition s_spcur v (x : sst) := mkSst (runq x) (cur x) (self_woken x) (calls x) (nreq x) (r1 x) v (sp_wakers x) (dst x) (stopping x) (lasterr x) (qerrs x).
-Definition s_spw v (x : sst) := mkSst (runq x) (cur x) (self_woken x) (calls x) (nreq x) (r1 x) (sp_cur x) v (dst x) (stopping x) (lasterr x) (qerrs x).
-Definition s_dst v (x : sst) := mkSst (runq x) (cur x) (self_woken x) (calls x) (nreq x) (r1 x) (sp_cur x) (sp_wakers x) v (stopping x) (lasterr x) (qerrs x).
-Definition s_stopping v (x : sst) := mkSst (runq x) (cur x) (self_woken x) (calls x) (nreq x) (r1 x) (sp_cur x) (sp_wakers x) (dst x) v (lasterr x) (qerrs x).
-Definition s_lasterr v (x : sst) := mkSst (runq x) (cur x) (self_woken x) (calls x) (nreq x) (r1 x) (sp_cur x) (sp_wakers x) (dst x) (stopping x) v (qerrs x).
-Definition s_qerrs v (x : sst) := mkSst (runq x) (cur x) (self_woken x) (calls x) (nreq x) (r1 x) (sp_cur x) (sp_wakers x) (dst x) (stopping x) (lasterr x) v.
+Definition s_runq v (x : sst) := mkSst v (cur x) (self_woken x) (calls x) (nreq x) (r1 x) (sp_cur x) (sp_wakers x) (dst x) (stopping x) (lasterr x) (qerrs x) (cfree x) (cslen x).
+Definition s_cur v (x : sst) := mkSst (runq x) v (self_woken x) (calls x) (nreq x) (r1 x) (sp_cur x) (sp_wakers x) (dst x) (stopping x) (lasterr x) (qerrs x) (cfree x) (cslen x).
+Definition s_selfw v (x : sst) := mkSst (runq x) (cur x) v (calls x) (nreq x) (r1 x) (sp_cur x) (sp_wakers x) (dst x) (stopping x) (lasterr x) (qerrs x) (cfree x) (cslen x).
+Definition s_calls v (x : sst) := mkSst (runq x) (cur x) (self_woken x) v (nreq x) (r1 x) (sp_cur x) (sp_wakers x) (dst x) (stopping x) (lasterr x) (qerrs x) (cfree x) (cslen x).
+Definition s_nreq v (x : sst) := mkSst (runq x) (cur x) (self_woken x) (calls x) v (r1 x) (sp_cur x) (sp_wakers x) (dst x) (stopping x) (lasterr x) (qerrs x) (cfree x) (cslen x).
+Definition s_r1 v (x : sst) := mkSst (runq x) (cur x) (self_woken x) (calls x) (nreq x) v (sp_cur x) (sp_wakers x) (dst x) (stopping x) (lasterr x) (qerrs x) (cfree x) (cslen x).
+Definition s_spcur v (x : sst) := mkSst (runq x) (cur x) (self_woken x) (calls x) (nreq x) (r1 x) v (sp_wakers x) (dst x) (stopping x) (lasterr x) (qerrs x) (cfree x) (cslen x).
+Definition s_spw v (x : sst) := mkSst (runq x) (cur x) (self_woken x) (calls x) (nreq x) (r1 x) (sp_cur x) v (dst x) (stopping x) (lasterr x) (qerrs x) (cfree x) (cslen x).
+Definition s_dst v (x : sst) := mkSst (runq x) (cur x) (self_woken x) (calls x) (nreq x) (r1 x) (sp_cur x) (sp_wakers x) v (stopping x) (lasterr x) (qerrs x) (cfree x) (cslen x).
+Definition s_stopping v (x : sst) := mkSst (runq x) (cur x) (self_woken x) (calls x) (nreq x) (r1 x) (sp_cur x) (sp_wakers x) (dst x) v (lasterr x) (qerrs x) (cfree x) (cslen x).
+Definition s_lasterr v (x : sst) := mkSst (runq x) (cur x) (self_woken x) (calls x) (nreq x) (r1 x) (sp_cur x) (sp_wakers x) (dst x) (stopping x) v (qerrs x) (cfree x) (cslen x).
+Definition s_qerrs v (x : sst) := mkSst (runq x) (cur x) (self_woken x) (calls x) (nreq x) (r1 x) (sp_cur x) (sp_wakers x) (dst x) (stopping x) (lasterr x) v (cfree x) (cslen x).
+Definition s_cfree v (x : sst) := mkSst (runq x) (cur x) (self_woken x) (calls x) (nreq x) (r1 x) (sp_cur x) (sp_wakers x) (dst x) (stopping x) (lasterr x) (qerrs x) v (cslen x).
+Definition s_cslen v (x : sst) := mkSst (runq x) (cur x) (self_woken x) (calls x) (nreq x) (r1 x) (sp_cur x) (sp_wakers x) (dst x) (stopping x) (lasterr x) (qerrs x) (cfree x) v.
 
 Definition l_hlog v (x : lst) := mkLst v (plog x) (nh x) (np x) (stop1 x) (stops x) (hgate x) (pgate x).
 Definition l_plog v (x : lst) := mkLst (hlog x) v (nh x) (np x) (stop1 x) (stops x) (hgate x) (pgate x).
@@ -216,9 +221,19 @@ Definition wake_cnt (s : st) : st :=
 Definition wake_lim (s : st) : st :=
   if w_lim (b_ s) then wake TD (up_b (b_wlim false) s) else s.
 
-(* WaitersRef::notify of BufferService's inner pipeline: a readiness check completed *)
-Definition wake_inp (s : st) : st :=
-  let t := w_inp (b_ s) in wake_opt t (up_b (b_winp None) s).
+(* WaitersRef of BufferService's inner pipeline (PipelineBinding<InFlightService(1)>): the binding
+   index is used by BufferService::ready / shutdown, every call_nowait / call clone has its own;
+   a pending check keeps the ownership, everybody else is parked until notify() *)
+Fixpoint slot_set (k : N) (t : task) (l : list (N * task)) : list (N * task) :=
+  match l with
+  | [] => [(k, t)]
+  | (a, b) :: r => if a =? k then (a, t) :: r else (a, b) :: slot_set k t r
+  end.
+Definition ip_notify (s : st) : st :=
+  let l := ip_wakers (b_ s) in
+  wake_all (map snd l) (up_b (fun x => b_ipcur None (b_ipw [] x)) s).
+Definition ip_push (slot : N) (t : task) (s : st) : st :=
+  up_b (b_ipw (slot_set slot t (ip_wakers (b_ s)))) s.
 
 (* WaitersRef::notify of the io-service pipeline *)
 Definition sp_notify (s : st) : st :=
@@ -253,7 +268,7 @@ Fixpoint del_call (k : N) (l : list call) : list call :=
   match l with [] => [] | x :: r => if cid x =? k then r else x :: del_call k r end.
 
 Definition set_cst (k : N) (v : cstate) (s : st) : st :=
-  up_s (fun x => s_calls (upd_call k (fun c => mkCall (cid c) v (clim c) (chost c)) (calls x)) x) s.
+  up_s (fun x => s_calls (upd_call k (fun c => mkCall (cid c) v (clim c) (chost c) (ckey c)) (calls x)) x) s.
 Definition host_of (k : N) (s : st) : task :=
   match find_call k (calls (s_ s)) with Some c => chost c | None => TS k end.
 
@@ -301,21 +316,27 @@ Definition bs_ready0 (who : task) (w : option N) (s : st) : st * brres :=
   match blocked with
   | Some o => (reg_guard o who s1, BRWait o)
   | None =>
-    if cnt (b_ s1) <? 1 then
-      let s1 := wake_inp s1 in
-      match buf (b_ s1) with
-      | k :: rest =>
-        let s2 := up_b (fun x => b_bready false (b_nextc (Some k) (b_buf rest x))) s1 in
-        let m := match find_call k (calls (s_ s2)) with
-                 | Some c => match cst c with CBuf m => m | _ => (0, 0) end
-                 | None => (0, 0)
-                 end in
-        (reg_guard k who (wake (host_of k s2) (set_cst k (CRel m) s2)), BRReady)
-      | [] => (up_b (b_bready true) s1, BRReady)
-      end
-    else
-      (* inner service not ready: Counter::poll_available registers the polling task *)
-      (up_b (fun x => b_bready false (b_winp (Some who) (b_wcnt (Some who) x))) s1, BRReady)
+    match ip_cur (b_ s1) with
+    | Some (OCall _) =>
+      (* another readiness check of the inner pipeline is pending: parked, "not ready" *)
+      (up_b (b_bready false) (ip_push 0 who s1), BRReady)
+    | _ =>
+      if cnt (b_ s1) <? 1 then
+        let s1 := ip_notify s1 in
+        match buf (b_ s1) with
+        | k :: rest =>
+          let s2 := up_b (fun x => b_bready false (b_nextc (Some k) (b_buf rest x))) s1 in
+          let m := match find_call k (calls (s_ s2)) with
+                   | Some c => match cst c with CBuf m => m | _ => (0, 0) end
+                   | None => (0, 0)
+                   end in
+          (reg_guard k who (wake (host_of k s2) (set_cst k (CRel m) s2)), BRReady)
+        | [] => (up_b (b_bready true) s1, BRReady)
+        end
+      else
+        (* inner service not ready: Counter::poll_available registers the polling task *)
+        (ip_push 0 who (up_b (fun x => b_bready false (b_ipcur (Some OBind) (b_wcnt (Some who) x))) s1), BRReady)
+    end
   end.
 
 (* every readiness check of the control pipeline runs under WaitersRef::run of `inner.control`
@@ -577,8 +598,15 @@ Definition proto_invoke (who : task) (k : N) (m : cmsg) (g : bool) (s : st) : st
 
 (* InFlightService::call: ready (capacity) then the guard then the service *)
 Definition inner_call (who : task) (k : N) (m : cmsg) (g : bool) (s : st) : st * option cres :=
-  if cnt (b_ s) <? 1 then proto_invoke who k m g (wake_inp s)
-  else (set_cst k (CWaitCnt m g) (up_b (b_wcnt (Some who)) s), None).
+  let blocked := match ip_cur (b_ s) with
+                 | None => false
+                 | Some OBind => true
+                 | Some (OCall j) => negb (j =? k)
+                 end in
+  if blocked then (ip_push k who (set_cst k (CWaitCnt m g) s), None)
+  else if cnt (b_ s) <? 1 then proto_invoke who k m g (ip_notify s)
+  else (ip_push k who (set_cst k (CWaitCnt m g)
+          (up_b (fun x => b_ipcur (Some (OCall k)) (b_wcnt (Some who) x)) s)), None).
 
 (* Pipeline::call of `inner.control` = ServiceChain<MapErr<BufferService>>: every layer does
    ready() then call(): three BufferService::ready in a row, then BufferService::call *)
@@ -634,7 +662,7 @@ Definition poll_call (who : task) (k : N) (s : st) : st * option cres :=
     match cst c with
     | CInit p =>
       (* InFlightServiceImpl::call: the counter guard is taken first *)
-      let s1 := up_s (fun x => s_calls (upd_call k (fun c => mkCall (cid c) (cst c) true (chost c)) (calls x)) x) s in
+      let s1 := up_s (fun x => s_calls (upd_call k (fun c => mkCall (cid c) (cst c) true (chost c) (ckey c)) (calls x)) x) s in
       gate who k p None (lim_inc s1)
     | CGate p w => gate who k p w s
     | CHandler h q2 id =>
@@ -668,7 +696,12 @@ Definition cancel_call (k : N) (s : st) : st :=
     match cst c with
     | CBuf _ => up_b (b_buf (remN k (buf (b_ s2)))) s2
     | CRel _ => wake_guard k s2
-    | CWaitCnt _ g => if g then wake_guard k s2 else s2
+    | CWaitCnt _ g =>
+      let s3 := match ip_cur (b_ s2) with
+                | Some (OCall j) => if j =? k then ip_notify s2 else s2
+                | _ => s2
+                end in
+      if g then wake_guard k s3 else s3
     | CProto _ _ g => release_guards k g s2
     | _ => s2
     end
@@ -770,11 +803,16 @@ Definition d_call_service (p : pkt) (s : st) : st * bool :=
   match response (q_ s0) with
   | Some _ =>
     let q1 := fst (call_service (q_ s0) k None) in
-    let s1 := up_s (fun x => s_calls (calls x ++ [mkCall k (CInit p) false (TS k)]) x) (set_q q1 s0) in
+    (* self.stopping.wait(): Slab::insert takes the most recently freed key *)
+    let '(key, s0) := match cfree (s_ s0) with
+                      | x :: r => (x, up_s (s_cfree r) s0)
+                      | [] => (cslen (s_ s0), up_s (s_cslen (cslen (s_ s0) + 1)) s0)
+                      end in
+    let s1 := up_s (fun x => s_calls (calls x ++ [mkCall k (CInit p) false (TS k) key]) x) (set_q q1 s0) in
     (wake (TS k) s1, true)
   | None =>
     (fun r : st => (r, false))
-   (let s1 := up_s (fun x => s_calls (calls x ++ [mkCall k (CInit p) false TD]) x) s0 in
+   (let s1 := up_s (fun x => s_calls (calls x ++ [mkCall k (CInit p) false TD 0]) x) s0 in
     match poll_call TD k s1 with
     | (s2, Some r) =>
       let s3 := retire_call k s2 in
@@ -806,11 +844,24 @@ Definition do_stop (kind reason : N) (s : st) : st :=
     else s1 in
   up_s (s_dst (DShut ShInit)) s2.
 
-Fixpoint wake_spawned (l : list call) (s : st) : st :=
+(* Condition::notify: the slab is walked in key order; a waiter is woken if it has been polled *)
+Fixpoint insert_key (c : call) (l : list call) : list call :=
+  match l with
+  | [] => [c]
+  | x :: r => if ckey c <? ckey x then c :: l else x :: insert_key c r
+  end.
+Fixpoint sort_key (l : list call) : list call :=
+  match l with [] => [] | c :: r => insert_key c (sort_key r) end.
+Fixpoint wake_keys (l : list call) (s : st) : st :=
   match l with
   | [] => s
-  | c :: r => wake_spawned r (match chost c with TS k => wake (TS k) s | _ => s end)
+  | c :: r => wake_keys r (match chost c, cst c with
+                           | TS k, CInit _ => s
+                           | TS k, _ => wake (TS k) s
+                           | _, _ => s
+                           end)
   end.
+Definition wake_spawned (l : list call) (s : st) : st := wake_keys (sort_key l) s.
 
 (* Dispatcher::shutdown done: stopping.notify(), then the io shutdown *)
 Definition shut_done (s : st) : st :=
@@ -822,18 +873,23 @@ Definition shut_flush (s : st) : st * bool :=
   match buf (b_ s) with
   | [] => (s, true)
   | k :: rest =>
-    if cnt (b_ s) <? 1 then
-      let s1 := up_b (fun x => b_nextc (Some k) (b_buf rest x)) (wake_inp s) in
-      let m := match find_call k (calls (s_ s1)) with
-               | Some c => match cst c with CBuf m => m | _ => (0, 0) end
-               | None => (0, 0)
-               end in
-      let s2 := reg_guard k TD (wake (host_of k s1) (set_cst k (CRel m) s1)) in
-      match rest with
-      | [] => (s2, true)
-      | _ => (up_s (s_dst (DShut (ShFlush (Some k)))) s2, false)
-      end
-    else (up_s (s_dst (DShut (ShFlush None))) (up_b (fun x => b_winp (Some TD) (b_wcnt (Some TD) x)) s), false)
+    match ip_cur (b_ s) with
+    | Some (OCall _) => (up_s (s_dst (DShut (ShFlush None))) (ip_push 0 TD s), false)
+    | _ =>
+      if cnt (b_ s) <? 1 then
+        let s1 := up_b (fun x => b_nextc (Some k) (b_buf rest x)) (ip_notify s) in
+        let m := match find_call k (calls (s_ s1)) with
+                 | Some c => match cst c with CBuf m => m | _ => (0, 0) end
+                 | None => (0, 0)
+                 end in
+        let s2 := reg_guard k TD (wake (host_of k s1) (set_cst k (CRel m) s1)) in
+        match rest with
+        | [] => (s2, true)
+        | _ => (up_s (s_dst (DShut (ShFlush (Some k)))) s2, false)
+        end
+      else (up_s (s_dst (DShut (ShFlush None)))
+              (ip_push 0 TD (up_b (fun x => b_ipcur (Some OBind) (b_wcnt (Some TD) x)) s)), false)
+    end
   end.
 
 (* the dispatcher future completes.  The inline response future lives in the Rc<DispatcherState>
@@ -921,19 +977,20 @@ Definition d_poll (s : st) : st :=
     d_loop 64 s1
   end.
 
-(* a spawned response task: select(call, stopping) *)
+(* a spawned response task: select(call, stopping); the Waiter is dropped with the task *)
+Definition free_key (key : N) (s : st) : st := up_s (s_cfree (key :: cfree (s_ s))) s.
 Definition ts_poll (k : N) (s : st) : st :=
   match find_call k (calls (s_ s)) with
   | None => s
-  | Some _ =>
+  | Some c0 =>
     match poll_call (TS k) k s with
     | (s1, Some r) =>
       let '(s2, e) := finish_deferred k r (retire_call k s1) in
-      if e then wake_disp s2 else s2
+      free_key (ckey c0) (if e then wake_disp s2 else s2)
     | (s1, None) =>
       if stopping (s_ s1) then
         let '(s2, e) := finish_deferred k RNone (cancel_call k s1) in
-        if e then wake_disp s2 else s2
+        free_key (ckey c0) (if e then wake_disp s2 else s2)
       else s1
     end
   end.
@@ -1045,9 +1102,9 @@ Definition init_st (is5 : bool) (cf : list N) : st :=
                  (a 4%nat) in
   mkSt c
        (mkPst [] [] [] [] false false)
-       (mkBst [] 0 None true None 0 false None [] None)
+       (mkBst [] 0 None true None 0 false None [] [] None)
        (mkIst [] [] false false false true true false [])
-       (mkSst [] None false [] 0 RIdle None [] DProc false EServ [])
+       (mkSst [] None false [] 0 RIdle None [] DProc false EServ [] [] 0)
        (mkLst [] [] 0 0 0 0 [] [])
        rq_init.
 
